@@ -368,6 +368,37 @@ def search(ctx, utils):
     ctx.oblige(f"search: {nseq} LogRepFloat accumulation sequences, products, ratios, differences, orderings", bad == 0, f"{bad} failures")
 
 
+def weights_in_transitions_search(ctx):
+    """where the log-space arithmetic is USED: the dynamic transitions weigh states by exp(-h).  Adding a constant to the potential changes no ratio of
+    weights, so a seeded chain must not change -- including constants that make every weight underflow (h > 745) or overflow as a plain float"""
+    import mici
+    bad = 0
+    for kind in ("multinomial", "slice", "static"):
+        ref = None
+        for off in (0.0, 5.0, 740.0, 800.0, 4096.0, -800.0, -4096.0):
+            system = mici.systems.EuclideanMetricSystem(lambda q, off=off: 0.5 * q @ q + off, grad_neg_log_dens=lambda q: q)
+            integ = mici.integrators.LeapfrogIntegrator(system, 0.9)
+            rng = np.random.default_rng(20260930)
+            cls = {"multinomial": mici.samplers.DynamicMultinomialHMC, "slice": mici.samplers.DynamicSliceHMC, "static": mici.samplers.StaticMetropolisHMC}[kind]
+            sampler = cls(system, integ, rng, **({"n_step": 3} if kind == "static" else {"max_tree_depth": 4}))
+            out = sampler.sample_chains(0, 40, [np.array([0.3, -1.1, 0.8])], trace_funcs=[lambda st: {"pos": st.pos}], display_progress=False)
+            pos = np.asarray(out.traces["pos"][0])
+            acc = np.asarray(out.statistics["accept_stat"][0])
+            ctx.case(("shift", kind, off))
+            ctx.count("search:weights_in_transitions")
+            if ref is None:
+                ref = (pos, acc)
+                continue
+            moved = int(np.sum(np.any(np.diff(pos, axis=0) != 0, axis=1)))
+            if not (np.allclose(pos, ref[0], rtol=1e-7, atol=1e-9) and np.allclose(acc, ref[1], rtol=1e-6, atol=1e-9)):
+                bad += 1
+                ctx.fail(f"weights:{kind}:shifted_potential", f"{kind} transition: adding the constant {off:g} to the negative log density changes the seeded chain (the chain moved on "
+                         f"{moved} of 39 iterations; first differing row {int(np.argmax(np.any(~np.isclose(pos, ref[0], rtol=1e-7, atol=1e-9), axis=1)))}): ratios of underflowing / "
+                         f"overflowing weights are not computed in log space", {"kind": kind, "offset": off})
+    ctx.oblige("search: seeded multinomial / slice / static chains are unchanged by adding 5, 740, 800, 4096, -800, -4096 to the potential (weights that underflow or overflow "
+               "as plain floats)", bad == 0, f"{bad} failures")
+
+
 def run(ctx):
     import mici.utils as utils
     ctx.rule = ("correspondence cases: helper functions and LogRepFloat methods on mostly-valid log-values (dyadic, huge/tiny, -inf, "
@@ -383,3 +414,4 @@ def run(ctx):
     if model_ok:
         correspondence(ctx, utils)
     search(ctx, utils)
+    weights_in_transitions_search(ctx)
